@@ -114,7 +114,7 @@ extra_text.append("Definition C07_RESP_NB_FIXED : bool := %s.  (* respond.c resp
 _rb = _body(_S + "respond.c", "resp0_ctx_recv")
 if "nni_pollable_raise(&s->writable)" not in _rb:
     missing.append("resp0_ctx_recv: raise of the writable pollable in respond.c")
-_wb = re.search(r"if\s*\(\(ctx\s*==\s*&s->ctx\)\s*&&\s*\(!p->busy\)\)\s*\{\s*nni_pollable_raise\(&s->writable\)", _rb)
+_wb = re.search(r"!p->busy\)*\s*\{\s*nni_pollable_raise\(&s->writable\)", _rb)   # `(ctx == &s->ctx) && (!p->busy)` or nested ifs
 extra_text.append("Definition C07_RESP_WBUSY_FIXED : bool := %s.  (* respond.c resp0_ctx_recv: writable raised only if !p->busy *)" % ("true" if _wb else "false"))
 _cb = _body(_S + "respond.c", "resp0_pipe_close")
 extra_text.append("Definition C07_RESP_RCLOSE_FIXED : bool := %s.  (* respond.c resp0_pipe_close clears the readable pollable *)"
